@@ -3,7 +3,7 @@
 SPECIFICATION Spec
 CONSTANTS
   MaxUpdates = 3
-  MaxEntries = 2
+  MaxEntries = 1
   KeepOrder = "reverse"
   Size = "quick"
   StartRootfs = FALSE
